@@ -563,11 +563,13 @@ impl Epoch {
 
         let s = s_in.trim();
 
-        for (idx, char) in s.chars().enumerate() {
-            if !char.is_numeric() || idx == s.len() - 1 {
+        // `idx` is the byte offset of `char`, so that it can be used to slice the string.
+        for (idx, char) in s.char_indices() {
+            let is_last = idx + char.len_utf8() == s.len();
+            if !char.is_numeric() || is_last {
                 if cur_token == Token::Timescale {
                     // Then we match the timescale directly.
-                    if idx != s.len() - 1 {
+                    if !is_last {
                         // We have some remaining characters, so let's parse those in the only formats we know.
                         ts = TimeScale::from_str(s[idx..].trim()).with_context(|_| ParseSnafu {
                             details: "parsing as Gregorian date with time scale",
@@ -579,12 +581,12 @@ impl Epoch {
 
                 let pos = cur_token.gregorian_position().unwrap();
 
-                let end_idx = if idx != s.len() - 1 || !char.is_numeric() {
+                let end_idx = if !is_last || !char.is_numeric() {
                     // Only advance the token if we aren't at the end of the string
                     cur_token.advance_with(char)?;
                     idx
                 } else {
-                    idx + 1
+                    idx + char.len_utf8()
                 };
 
                 if prev_idx > end_idx {
@@ -600,7 +602,13 @@ impl Epoch {
                         prev_token.value_ok(val)?;
                         // If these are the subseconds, we must convert them to nanoseconds
                         if prev_token == Token::Subsecond {
-                            if end_idx - prev_idx != 9 {
+                            if end_idx - prev_idx > 9 {
+                                // More digits than nanoseconds
+                                return Err(HifitimeError::Parse {
+                                    source: ParsingError::ISO8601,
+                                    details: "more than nine subsecond digits",
+                                });
+                            } else if end_idx - prev_idx != 9 {
                                 decomposed[pos] =
                                     val * 10_i32.pow((9 - (end_idx - prev_idx)) as u32);
                             } else {
@@ -617,10 +625,10 @@ impl Epoch {
                         })
                     }
                 }
-                prev_idx = idx + 1;
+                prev_idx = idx + char.len_utf8();
                 // If we are about to parse an hours offset, we need to set the sign now.
                 if cur_token == Token::OffsetHours {
-                    if &s[idx..idx + 1] == "-" {
+                    if char == '-' {
                         offset_sign = -1;
                     }
                 }
